@@ -82,7 +82,7 @@ theorem collToSet_shape {uns : Bool} {ie oe conv} {v r : Value} {es : List Value
     (h : applyStep E rec (.collToSet oe conv) v = .ok r) :
     isSetBetween (min 1 es.length) es.length r.v := by
   have hnd : oe.isDyn = false := not_isDyn_of_noDyn hdo
-  simp only [applyStep, hnd, hes, Res.bind] at h
+  simp only [applyStep, hnd, hdo, hes, Res.bind] at h
   obtain ⟨es', hes', h⟩ := Res.bind_eq_ok h
   have hm := converted_members hU hrec (post := stripNull) (fun _ hv => stripNull_ty' hv)
     hpf hwi hoi hwo hdo hel hes'
